@@ -1,6 +1,7 @@
 SPECIFICATION Spec
 CONSTANTS
   NV = 6
+  MaxLoadBlockers = 0
   Heavy = FALSE
 INVARIANT TypeOK
 INVARIANT EmitState
